@@ -4,16 +4,10 @@ pub open spec fn writer_wf(w: &AppWriter) -> bool { (w.mode is Update) == writes
 pub open spec fn outdated_ids(w: &AppWriter) -> Set<int> {
     match w.mode { WriterMode::CheckOnly { outdated } => set_ids(&outdated), WriterMode::Update => Set::<int>::empty() }
 }
-/// ASSUMED contracts of the three toml-massaging helpers of GeneratedApp (see prelude)
+/// ASSUMED contracts of two toml-massaging helpers of GeneratedApp (persist_manifest is extracted and proved)
 impl GeneratedApp {
     #[verifier::external_body]
     pub fn normalize_path_dependencies(cargo_toml: &mut GeneratedManifest, pkg_directory: &Path) -> (r: Result<(), AnyhowError>) { unimplemented!() }
-    #[verifier::external_body]
-    pub fn persist_manifest(cargo_toml: &GeneratedManifest, pkg_directory: &Path, writer: &mut AppWriter) -> (r: Result<(), AnyhowError>)
-        requires writer_wf(old(writer)),
-        ensures writer_wf(final(writer)), (final(writer).mode is Update) == (old(writer).mode is Update),
-            old(writer).mode is CheckOnly ==> outdated_ids(old(writer)).subset_of(outdated_ids(final(writer)))
-    { unimplemented!() }
     #[verifier::external_body]
     pub fn inject_app_into_workspace_members(workspace: &Workspace<'_>, generated_crate_directory: &Path, writer: &mut AppWriter) -> (r: Result<(), AnyhowError>)
         requires writer_wf(old(writer)),
